@@ -651,6 +651,10 @@ func c11Run(c *C) {
 		c11ManyIncludes(c)
 		return
 	}
+	if c.Idx%20 == 14 {
+		c11BuiltinLoaders(c)
+		return
+	}
 	if c.Idx%6 == 5 {
 		c11LazySequences(c)
 		return
@@ -881,6 +885,7 @@ func c11Strace(tier string, seed int64, dir string) ([]Violation, []string, map[
 func init() {
 	register(&Prop{
 		ID:        "C11",
+		Finding:   c11Finding,
 		PostCheck: c11Strace,
 		Cases: func(tier string) int {
 			if tier == "thorough" {
